@@ -40,6 +40,16 @@ Section C07.
   Theorem C07_unique_t s : reachable s -> NoDup (map tx_t (s_pending s)).
   Proof. exact (ServerInv2.C07_unique_t Store w_put w_get sha1 id_secure cfg s). Qed.
 
+  (* ---- a transaction is registered only by starting a query: under the destination the query
+          datagram is sent to and the transaction id that datagram carries ---- *)
+  Theorem C07_registered s e ch s' out x :
+    step s e ch = SR Store s' out -> In x (s_pending s') -> ~ In x (s_pending s) ->
+    exists qid dst q a rated t,
+      e = EQueryStart qid dst q a rated t /\ x = mkTxn (addr_key dst) t qid /\
+      s_closed Store s = false /\ blocked (s_blocklist Store s) (ip dst) = false /\
+      out = [ESend dst (query_msg cfg q a t) SQuery].
+  Proof. exact (ServerInv2.C07_registered Store w_put w_get sha1 id_secure cfg s e ch s' out x). Qed.
+
   (* ---- a completion hands the datagram to a pending query registered for exactly the source
           address (ip and port) with exactly the datagram's transaction id; the datagram passed the
           serve-loop filters and is not a query; that query is no longer pending afterwards and
@@ -142,6 +152,7 @@ Print Assumptions C07_uvarint_roundtrip.
 Print Assumptions C07_uvarint_decode_inj.
 Print Assumptions C07_txinv.
 Print Assumptions C07_unique_t.
+Print Assumptions C07_registered.
 Print Assumptions C07_match.
 Print Assumptions C07_at_most_one.
 Print Assumptions C07_only_packets_complete.
